@@ -9,15 +9,16 @@ namespace LE
 
 /-! ### C16: occurrences by brute force -/
 
-/-- all occurrences of stored names in the word sequence of `text`: for every word position, the
-    stored names whose words end there, longest first -/
+/-- the folded words of the pieces consumed so far (`seen` is newest first), in text order -/
+def wordsOfSeen (c : Cls) (seen : List Piece) : List Word := (seen.map (fun q => c.fold q.text)).reverse
+
+/-- all occurrences of stored names in the word sequence of `text`: for every word position and every
+    suffix of the words read so far, longest first, report the stored name with exactly those words -/
 def iterSpecGo {V : Type} (c : Cls) (t : Trie V) (text : Str) : List Piece → List Piece → List (Tok V)
   | _, [] => []
   | seen, p :: ps =>
     let seen' := p :: seen
-    let ws := seen'.map (fun q => c.fold q.text)          -- newest first
-    let hits := t.entries.filter (fun e => e.words.reverse.isPrefixOf ws)
-    let hits := hits.mergeSort (fun a b => a.words.length ≥ b.words.length)
+    let hits := (tails (wordsOfSeen c seen')).filterMap (fun suf => t.outputAt suf)
     hits.filterMap (fun e => (startBack seen' e.words.length).map
       (fun st => (⟨st, p.stop, slice text st p.stop, some e.val⟩ : Tok V))) ++ iterSpecGo c t text seen' ps
 
